@@ -63,7 +63,9 @@ Section codec.
 
   Definition idx_wf (i : info) : Prop := forall x, iidx i = Some x -> x <> c_dir_index c.
   Definition wf_files (fs : list (bytes * info)) : Prop :=
-    Forall (fun f => str_ok (fst f) = true /\ entry_fits c (snd f) = true /\ idx_wf (snd f)) fs.
+    Forall (fun f => str_ok (fst f) = true /\ idx_wf (snd f)) fs.
+  Definition files_fit (fs : list (bytes * info)) : bool := forallb (fun f => entry_fits c (snd f)) fs.
+  Definition dirs_fit (ds : list (bytes * list (bytes * info))) : bool := forallb (fun d => files_fit (snd d)) ds.
   Definition wf_dirs (ds : list (bytes * list (bytes * info))) : Prop :=
     Forall (fun d => str_ok (fst d) = true /\ wf_files (snd d)) ds.
   Definition wf_tree (t : tree) : Prop :=
@@ -100,12 +102,13 @@ Section codec.
   Proof. apply map_app. Qed.
 
   Lemma dec_enc_files e d fs : forall fuel r,
-    wf_files fs -> (length (files_body fs) < fuel)%nat ->
+    wf_files fs -> files_fit fs = true -> (length (files_body fs) < fuel)%nat ->
     dec_files c fuel e d (files_body fs ++ 0 :: r) = Some (nmap (flat_files e d fs), r).
   Proof.
-    induction fs as [|f fs IH]; intros fuel r Hwf Hf.
+    induction fs as [|f fs IH]; intros fuel r Hwf Hft Hf.
     - destruct fuel; [lia|]. reflexivity.
-    - inversion Hwf as [|? ? (Hs & Hfit & Hidx) Hwf']; subst.
+    - inversion Hwf as [|? ? (Hs & Hidx) Hwf']; subst.
+      cbn [files_fit forallb] in Hft. apply andb_prop in Hft as [Hfit Hft].
       unfold files_body in *. cbn [flat_map] in *. rewrite !app_length in Hf.
       pose proof (write_cstr_len (fst f)).
       destruct fuel; [lia|]. cbn [dec_files].
@@ -118,12 +121,13 @@ Section codec.
   Proof. unfold enc_files, files_body. rewrite app_length. lia. Qed.
 
   Lemma dec_enc_dirs e ds : forall fuel r,
-    wf_dirs ds -> (length (dirs_body ds) < fuel)%nat ->
+    wf_dirs ds -> dirs_fit ds = true -> (length (dirs_body ds) < fuel)%nat ->
     dec_dirs c fuel e (dirs_body ds ++ 0 :: r) = Some (nmap (flat_dirs e ds), r).
   Proof.
-    induction ds as [|d ds IH]; intros fuel r Hwf Hf.
+    induction ds as [|d ds IH]; intros fuel r Hwf Hft Hf.
     - destruct fuel; [lia|]. reflexivity.
     - inversion Hwf as [|? ? (Hs & Hfs) Hwf']; subst.
+      cbn [dirs_fit forallb] in Hft. apply andb_prop in Hft as [Hfit Hft].
       unfold dirs_body, flat_dirs in *. cbn [flat_map] in *.
       destruct (snd d) as [|f0 fs0] eqn:Ed.
       + cbn [app flat_files map]. apply IH; auto.
@@ -131,8 +135,8 @@ Section codec.
         destruct fuel; [lia|]. cbn [dec_dirs].
         rewrite <- !app_assoc. rewrite (next_str_write _ _ Hs).
         unfold enc_files. fold (files_body (f0 :: fs0)). rewrite <- !app_assoc. cbn [app].
-        rewrite dec_enc_files; [|assumption|rewrite app_length; lia].
-        rewrite IH; [|assumption|].
+        rewrite dec_enc_files; [|assumption|assumption|rewrite app_length; lia].
+        rewrite IH; [|assumption|assumption|].
         * now rewrite nmap_app.
         * lia.
   Qed.
@@ -155,12 +159,13 @@ Section codec.
   Proof. reflexivity. Qed.
 
   Lemma dec_enc_exts t : forall fuel flen tlen footer,
-    wf_tree t -> (length (exts_body t) < fuel)%nat -> flen + 1 = tlen + (len footer + 1) ->
+    wf_tree t -> tree_fits c t = true -> (length (exts_body t) < fuel)%nat -> flen + 1 = tlen + (len footer + 1) ->
     dec_exts c fuel flen tlen (exts_body t ++ 0 :: footer) = Some (nmap (flat_tree t), footer).
   Proof.
-    induction t as [|e t IH]; intros fuel flen tlen footer Hwf Hf Hl.
+    induction t as [|e t IH]; intros fuel flen tlen footer Hwf Hft Hf Hl.
     - destruct fuel; [lia|]. reflexivity.
     - inversion Hwf as [|? ? (Hs & Hds) Hwf']; subst.
+      cbn [tree_fits forallb] in Hft. apply andb_prop in Hft as [Hfit Hft].
       rewrite flat_tree_cons. rewrite exts_body_cons in *.
       destruct (snd e) as [|d0 ds0] eqn:Ee.
       + cbn [app flat_dirs flat_map]. apply IH; auto.
@@ -168,12 +173,12 @@ Section codec.
         destruct fuel; [lia|]. cbn [dec_exts].
         rewrite <- !app_assoc. rewrite (next_str_write _ _ Hs).
         unfold enc_dirs. fold (dirs_body (d0 :: ds0)). rewrite <- !app_assoc. cbn [app].
-        rewrite dec_enc_dirs; [|assumption|rewrite app_length; lia].
+        rewrite dec_enc_dirs; [|assumption|exact Hfit|rewrite app_length; lia].
         destruct (len (exts_body t ++ 0 :: footer) + tlen =? flen + 1) eqn:Eq.
         * apply N.eqb_eq in Eq. rewrite len_app, len_cons in Eq.
           assert (exts_body t = []) as E0 by (apply len_nil_inv; lia).
           rewrite E0. cbn [app tl]. rewrite (exts_body_nil_flat _ E0), app_nil_r. reflexivity.
-        * rewrite IH; [|assumption| |assumption].
+        * rewrite IH; [|assumption|assumption| |assumption].
           -- now rewrite nmap_app.
           -- lia.
   Qed.
@@ -187,11 +192,11 @@ Section codec.
     apply andb_prop in Hc as [Hc1 Hterm]. apply andb_prop in Hc1 as [Hsig Hdi].
     destruct (fits32 (c_sig c) && tree_fits c t && fits32 (len (enc_tree c t))) eqn:E; [|discriminate].
     intros Hb. replace b with (le32 (c_sig c) ++ le32 1 ++ le32 (len (enc_tree c t)) ++ enc_tree c t ++ footer) by congruence.
-    clear Hb. apply andb_prop in E as [E Hlen]. unfold fits32 in *.
+    clear Hb. apply andb_prop in E as [E Hlen]. apply andb_prop in E as [E Hfits]. unfold fits32 in *.
     unfold dec_file. rewrite rd32_le32 by lia. rewrite rd32_le32 by lia. rewrite rd32_le32 by lia.
     rewrite !N.eqb_refl. cbn [andb].
     unfold enc_tree. fold (exts_body t). rewrite <- !app_assoc. cbn [app].
-    apply dec_enc_exts; [assumption|rewrite app_length; cbn [length]; lia|].
+    apply dec_enc_exts; [assumption|assumption|rewrite app_length; cbn [length]; lia|].
     rewrite !len_app, !len_cons. change (len []) with 0. lia.
   Qed.
 End codec.
